@@ -307,6 +307,7 @@ func init() {
 		// near-duplicate schemas under one Go type name (see neardup.go)
 		pcs = append(pcs, nearDupCases(c, "c02-near-duplicates")...)
 		res := runCases(c, pcs)
+		crossCheckSpec(c, res)
 		fails := 0
 		for _, r := range res {
 			if r.RunsJ == nil || (r.Case.Stream != "c02-valid" && r.Case.Stream != "c02-near-duplicates") {
